@@ -190,6 +190,14 @@ theorem rollIdx_int (B : ℕ) (i : Fin B) : ((rollIdx B i).val : ℤ) = ((i.val 
     rw [Int.emod_eq_of_lt (by omega) (by omega)]
     omega
 
+/-- with at least two rows no row is paired with itself -/
+theorem rollIdx_ne (B : ℕ) (hB : 2 ≤ B) (i : Fin B) : rollIdx B i ≠ i := by
+  intro h
+  have hv := congrArg Fin.val h
+  rw [rollIdx_val] at hv
+  have hi := i.isLt
+  split at hv <;> omega
+
 theorem rollIdx_injective (B : ℕ) : Function.Injective (rollIdx B) := by
   intro i j h
   have hv := congrArg Fin.val h
